@@ -28,7 +28,7 @@ PLAN = {
             "thorough": ["seg13", "seg22", "seg3d", "seg13n", "feat13", "feat22", "feat3d", "feat333"]},
     # seg13z: tracks rebuilt from the graph, IoU enabled in bulk at that point; feat13: enable / disable at any point
     "C09": {"quick": ["seg13", "seg3d", "seg13z", "feat13", "seg5s"], "thorough": ["seg13", "seg22", "seg3d", "seg13n", "seg13z", "feat13", "feat22", "seg5s"]},
-    "C10": {"quick": ["featns", "feat13", "seg5s"], "thorough": ["featns", "feat13", "feat22", "seg5s"]},
+    "C10": {"quick": ["featns", "feat13", "seg5s", "featns_s", "feat13_s"], "thorough": ["featns", "feat13", "feat22", "seg5s", "featns_s", "feat13_s"]},
     "C11": {"quick": ["struct3", "struct4s", "struct5s", "struct3p", "struct3n0", "seg13", "seg6s"], "thorough": ["struct3", "struct4s", "struct5s", "struct3p", "struct3c", "struct4", "seg13", "seg22", "seg6s"]},
     "C20": {"quick": ["struct3", "struct4s", "struct5s", "struct3n0", "seg13", "seg6s"], "thorough": ["struct3", "struct4s", "struct5s", "struct4", "seg13"]},
 }
